@@ -37,7 +37,7 @@ def thresholds(tier):
 
 def knobs(rng):
   return {"depth": rng.choice([0, 0, 1]), "max_children": 1, "p_struct": 0.3, "p_list": 0.2, "p_ff": 0.3, "max_sigs": rng.choice([3, 5]),
-          "expr_depth": rng.choice([2, 3, 4]), "widths": [1, 2, 3, 4, 5, 7, 8, 9, 16, 31, 32, 33, 63, 64], "avoid_const_ops": True, "p_freevar": 0.25, "p_tmp": 0.3, "p_lambda": 0.2}
+          "expr_depth": rng.choice([2, 3, 4]), "widths": [1, 2, 3, 4, 5, 7, 8, 9, 16, 31, 32, 33, 63, 64], "avoid_const_ops": True, "p_freevar": 0.25, "p_tmp": 0.3, "p_lambda": 0.2, "p_nested_field": 0.2, "p_list_field": 0.2, "p_for": 0.6, "p_list": 0.4}
 
 
 # ---------------------------------------------------------------------------
@@ -261,9 +261,11 @@ def run_design(sh, case):
           iv = int(v)
           if (cls, blkname, l, c, el, ec) in uppers:
             iv -= 1           # exclusive bound
-          if iv < 0 or iv >= (1 << w):
-            W("static-width-cannot-hold-runtime-int", node=kind, pos=[blkname, l, c, el, ec], static=w, runtime_value=iv,
-              mech="leaf-literal-of-folded-constant-enforced-too-narrow" if kind in ("Number", "FreeVar") else None); return
+          if (iv < 0 and abs(iv) > (1 << w)) or iv >= (1 << w):      # negative ints only occur as loop steps (magnitude must fit)
+            W("static-width-cannot-hold-runtime-int", node=kind, pos=[blkname, l, c, el, ec], static=w, runtime_value=iv, implicit=isconst,
+              mech="leaf-literal-of-folded-constant-enforced-too-narrow" if kind in ("Number", "FreeVar") else
+                   "implicit-arithmetic-on-loop-variable-keeps-pre-enforcement-width" if kind == "BinOp" and isconst else None)
+            if not (kind == "BinOp" and isconst): return
   sh.count("designs"); sh.count("evaluations")
   if case < 1:
     sh.sample({"design_source_head": src[:700], "static_nodes": len(table), "probe_sites": len(rec)})
